@@ -92,8 +92,11 @@ def run_shard(rec, tier, seed, shard, nshards):
             w = {"E": E, "T": T, "chains": chains.tolist()}
             rec.case(("eval", kit.array_hash(pred), kit.array_hash(obs), kit.array_hash(chains)), nontrivial=len(set(np.bincount(chains)[np.bincount(chains) > 0].tolist())) > 1 or T > 1)
             try:
+                fp0 = (kit.array_hash(pred), kit.array_hash(obs), kit.array_hash(chains))
                 me = MM.ModelEvaluation(predictions=pred, observations=obs, chain_ids=chains.astype(int), sample_names=names)
                 got = (me.mse(), me.mse_variance(), me.inter_chain_mse_variance(), np.asarray(me.mean_predictions))
+                got2 = (me.mse(), me.mse_variance(), me.inter_chain_mse_variance())
+                rec.check(fp0 == (kit.array_hash(pred), kit.array_hash(obs), kit.array_hash(chains)) and all(float(a) == float(b) or (a != a and b != b) for a, b in zip(got[:3], got2)), "C20/evaluation/not-pure", "computing the metrics changed the inputs or a second call gave other values", w)
             except Exception as e:
                 rec.violation("C20/evaluation/raises", "ModelEvaluation raised %r" % (e,), w)
             else:
